@@ -173,7 +173,8 @@ func runCase(jc jcase) {
 				bin = uint8(w.ids[ev.P].x)
 			}
 			preConn, _, _ := w.dump(false)
-			_, preOver := e.kad.VerifConnBinSaturation(bin)
+			preSat, preOver := e.kad.VerifConnBinSaturation(bin)
+			prePot := e.kad.VerifConnPotentialDepth()
 			if preOver {
 				reachedOver = true
 			}
@@ -391,8 +392,20 @@ func runCase(jc jcase) {
 			if ev.K == "reach" { // the reference already holds the post-call status; undo for the pre-call count
 				cnt = -1
 			}
-			if preOver && cnt >= 0 && cnt < effOver {
-				violate(jc, "sat:oversaturated-below-threshold", fmt.Sprintf("step %d: bin %d has %d counted peers < %d but is reported oversaturated", step, bin, cnt, effOver), cnt, effOver)
+			if cnt >= 0 {
+				run.OracleChecked(1)
+				// binSaturated = (bin below the potential depth) and (counted peers >= threshold)
+				wantOver := bin < prePot && cnt >= effOver
+				wantSat := bin < prePot && cnt >= sat
+				if preOver && !wantOver {
+					violate(jc, "sat:oversaturated-below-threshold", fmt.Sprintf("step %d: bin %d (potential depth %d) has %d counted peers, threshold %d, but is reported oversaturated", step, bin, prePot, cnt, effOver), cnt, effOver)
+				}
+				if !preOver && wantOver {
+					violate(jc, "sat:not-oversaturated-at-threshold", fmt.Sprintf("step %d: bin %d (potential depth %d) has %d counted peers >= threshold %d but is not reported oversaturated", step, bin, prePot, cnt, effOver), cnt, effOver)
+				}
+				if preSat != wantSat {
+					violate(jc, "sat:saturated-flag", fmt.Sprintf("step %d: bin %d (potential depth %d) has %d counted peers, saturation %d, reported saturated=%v", step, bin, prePot, cnt, sat, preSat), preSat, wantSat)
+				}
 			}
 			switch ev.K {
 			case "conn":
